@@ -333,6 +333,18 @@ theorem sniff_short_raises (fp : Stream) (incl : Bool) (hl : fp.content.length <
     (detectXMLStream fp incl).out = .error .valueError := by
   rw [detectXMLStream_short fp incl hl]
 
+/-- the guard of `sniff_total_partial` is exact: the sniffer returns iff the document has at least four characters -/
+theorem sniff_returns_iff (fp : Stream) (incl : Bool) :
+    (∃ r, (detectXMLStream fp incl).out = .ok r) ↔ 4 ≤ fp.content.length := by
+  constructor
+  · rintro ⟨r, hr⟩
+    by_cases hl : fp.content.length < 4
+    · rw [sniff_short_raises fp incl hl] at hr; cases hr
+    · omega
+  · intro hl
+    obtain ⟨r, hr, _⟩ := sniff_total_partial fp incl hl
+    exact ⟨r, hr⟩
+
 /-! ### what "the declared encoding" is for the pattern (`xmlDeclPattern`, matched on the first 2048 characters) -/
 
 /-- T20.4 the declaration pattern, characterised exactly (sound and complete, for every text): it returns `e` iff
@@ -716,6 +728,18 @@ example : ∃ L : Lib, ∀ x, (∀ e, L.html x ≠ .error e) ∧ ∀ e, L.msg x 
 /-- the only way out by exception that the module itself has: no document and no response (`None.read()`) -/
 theorem info_raises_without_input (L : Lib) (t : Option Cps) :
     getEncodingInfoD L none none t = .error .attributeError := rfl
+
+/-- non-vacuity of the class hypotheses of `ascii_head_any_encoding`, and of "`getEncodingInfoD` returns" in the
+theorems above (tests): a `bytes` document through both layers, the meta stage deciding for the first of two metas -/
+example : docClass ((some (⟨some (cps "application/xml"), none, none⟩ : RespD)).map RespD.head) [] ≠ .html ∧
+    docClass ((some (⟨some (cps "application/xml"), none, none⟩ : RespD)).map RespD.head) [] ≠ .text := by decide
+example :
+    (getEncodingInfoD
+      ⟨fun _ => .ok [⟨cps "meta", [(cps "http-equiv", some (cps "Content-Type")), (cps "content", some (cps "text/html;charset=ISO-M"))]⟩,
+                     ⟨cps "meta", [(cps "http-equiv", some (cps "Content-Type")), (cps "content", some (cps "text/html;charset=late"))]⟩],
+       fun c => if c == cps "text/html;charset=iso-m" then .ok (cps "text/html", .str (cps "iso-m")) else .error .extractor⟩
+      (some ⟨some (cps "text/html"), some (cps "ISO-H"), none⟩) (some (.bytes [60, 109, 101, 116, 97, 62])) none).map
+      (fun i => (i.encoding, i.mismatch, i.metaEncoding)) = .ok (some (cps "iso-h"), true, some (cps "iso-m")) := by decide
 
 /-! ## T20.6 — the HTML meta stage: which `<meta>` decides
 
